@@ -75,6 +75,7 @@ func Run(r *ev.Run) {
 	}
 	// the live heap is tiny and the allocation rate high: collect less often
 	debug.SetGCPercent(800)
+	debug.SetMemoryLimit(6 << 30)
 	start := time.Now()
 	workers := runtime.NumCPU()
 	if workers > 32 {
@@ -88,7 +89,7 @@ func Run(r *ev.Run) {
 	budget := 75 * time.Second
 	if thorough {
 		spaces = []fileSpace{{full, 4}, {core, 5}}
-		sweepLen, bfsDepth = 3, 4
+		sweepLen, bfsDepth = 2, 3
 		budget = 18 * time.Minute
 	}
 	envInt := func(k string, p *int) {
@@ -107,8 +108,8 @@ func Run(r *ev.Run) {
 	deadline := start.Add(budget)
 	fileDeadline := start.Add(budget * 45 / 100)
 
-	r.Rule = "(a) every sequence of body items over the item alphabet up to the length bound (full alphabet) and one longer (core alphabet), each rendered in 3 spacing styles with and without the final newline: token round trip, Format layout-only / idempotent / same tree / same decoded values; " +
-		"(b1) every single edit of the edit alphabet applied to every file of (a) up to the sweep length; (b2) breadth-first search over all edit histories up to the depth bound from each base file, states de-duplicated by output text; every transition runs on real hclwrite objects and on the docmodel, the output is re-parsed and compared"
+	r.Rule = "(a) every sequence of body items up to file_len_full over the full item alphabet and up to file_len_core over the core alphabet, each rendered in 3 spacing styles, with the final newline and (below the longest length) without it: token round trip is lossless, Format changes layout only / is idempotent / keeps the tree / keeps the decoded values; " +
+		"(b1) every single edit of the edit alphabet applied to every file of (a) of up to sweep_file_len items; (b2) breadth-first search over all edit histories up to edit_depth from each base file, states de-duplicated by output text; every transition runs on real hclwrite objects and on the docmodel, the output is re-parsed natively and compared with the model"
 	r.Bounds["alphabet_full"] = len(full)
 	r.Bounds["alphabet_core"] = len(core)
 	r.Bounds["file_len_full"] = spaces[0].maxLen
@@ -196,11 +197,12 @@ func Run(r *ev.Run) {
 		for pi, ps := range passes {
 			base := baseOf(bs, ps.fullOps)
 			st := searchBase(r, base, ps.depth, pool, deadline, outcomes)
-			if st.Capped {
-				r.NotExhaustive("edit search from base " + bs.name + ps.label + " stopped at the internal deadline (depth " + fmt.Sprint(st.Depth) + " complete)")
-			}
+			capped := st.Capped
 			if pi == 0 && st.Depth < shallow[bs.name].Depth {
 				st = shallow[bs.name] // the first pass got further than the cut-short one
+			}
+			if capped {
+				r.NotExhaustive("edit search from base " + bs.name + ps.label + " stopped at the internal deadline (depth " + fmt.Sprint(st.Depth) + " of " + fmt.Sprint(ps.depth) + " complete)")
 			}
 			states += st.States
 			transitions += st.Transitions
@@ -251,11 +253,15 @@ func sweep(r *ev.Run, alphabet []int, maxLen int, thorough bool, pool *workPool,
 		}
 	})
 	st.Files = int64(len(bases))
-	type result struct {
-		hist []int
-		res  stepResult
+	type agg struct {
+		transitions, states int64
+		outcomes            []string
+		findings            []struct {
+			hist []int
+			f    *editFinding
+		}
 	}
-	results := make([][]result, len(bases))
+	results := make([]*agg, len(bases))
 	var capped atomic.Bool
 	pool.run(len(bases), func(i int) {
 		if time.Now().After(deadline) {
@@ -264,39 +270,55 @@ func sweep(r *ev.Run, alphabet []int, maxLen int, thorough bool, pool *workPool,
 		}
 		b := bases[i]
 		b.Ops = buildOps(b.Src, thorough)
-		rs := []result{{nil, Replay(b, nil)}}
-		if rs[0].res.finding == nil {
+		a := &agg{}
+		seen := map[[16]byte]struct{}{}
+		one := func(h []int) bool {
+			res := Replay(b, h)
+			if !res.enabled {
+				return true
+			}
+			a.transitions++
+			kind := "base"
+			if len(h) > 0 {
+				kind = b.Ops[h[0]].Kind
+			}
+			if res.finding != nil {
+				a.outcomes = append(a.outcomes, "violated:"+res.finding.Sig)
+				a.findings = append(a.findings, struct {
+					hist []int
+					f    *editFinding
+				}{h, res.finding})
+				return false
+			}
+			k := stateKey(res.out)
+			if _, ok := seen[k]; ok {
+				a.outcomes = append(a.outcomes, "ok:"+kind+":state-seen-before")
+			} else {
+				seen[k] = struct{}{}
+				a.states++
+				a.outcomes = append(a.outcomes, "ok:"+kind+":new-state")
+			}
+			return true
+		}
+		if one(nil) {
 			for op := range b.Ops {
-				h := []int{op}
-				rs = append(rs, result{h, Replay(b, h)})
+				one([]int{op})
 			}
 		}
-		results[i] = rs
+		results[i] = a
 	})
 	st.Capped = capped.Load()
-	for i, rs := range results {
-		seen := map[string]bool{}
-		for _, x := range rs {
-			if !x.res.enabled {
-				continue
-			}
-			st.Transitions++
-			kind := "base"
-			if len(x.hist) > 0 {
-				kind = bases[i].Ops[x.hist[0]].Kind
-			}
-			if x.res.finding != nil {
-				outcomes.add("violated:" + x.res.finding.Sig)
-				r.Violate(x.res.finding.Sig, fmt.Sprintf("file %s, edit %v: %s", bases[i].Name, detailOf(bases[i], x.hist).Text, x.res.finding.What), detailOf(bases[i], x.hist))
-				continue
-			}
-			if !seen[string(x.res.out)] {
-				seen[string(x.res.out)] = true
-				st.States++
-				outcomes.add("ok:" + kind + ":new-state")
-			} else {
-				outcomes.add("ok:" + kind + ":state-seen-before")
-			}
+	for i, a := range results {
+		if a == nil {
+			continue
+		}
+		st.Transitions += a.transitions
+		st.States += a.states
+		for _, o := range a.outcomes {
+			outcomes.add(o)
+		}
+		for _, x := range a.findings {
+			r.Violate(x.f.Sig, fmt.Sprintf("file %s, edit %v: %s", bases[i].Name, detailOf(bases[i], x.hist).Text, x.f.What), detailOf(bases[i], x.hist))
 		}
 		bases[i].Ops, bases[i].model = nil, nil
 		results[i] = nil
